@@ -40,15 +40,15 @@ EDITS = ["set_ref", "set_ref", "set_ref", "shadow_ref", "del_ref", "set_mref", "
 
 def plan(tier):
     if tier == "quick":
-        return {"shards": 8, "examples": 40, "wall": 100}
-    return {"shards": 16, "examples": 600, "wall": 2400}
+        return {"shards": 8, "examples": 100, "wall": 100}
+    return {"shards": 16, "examples": 1200, "wall": 2400}
 
 
 @st.composite
 def cases(draw):
     ops, G = gen.gen_model_ops(draw, FEAT)
     allcells = sorted({(tuple(op[1]), op[2]["name"]) for op in ops if op[0] == "new_cells"})
-    n = draw(st.integers(1, min(5, len(allcells)))) if allcells else 0
+    n = min(len(allcells), draw(st.sampled_from([1, 2, 3, 3, 4, 4, 5, 5]))) if allcells else 0
     flagged = [list(map(list, [c[0]]))[0] + [c[1]] for c in draw(st.permutations(allcells))[:n]]
     sids = gen.all_ctx_ids(G)
     hist = []
@@ -111,8 +111,7 @@ def run_once(case, mask):
             # uncached cells execute on every call
             key = tuple(x for x in op[1] if isinstance(x, str)) + (op[2],)
             if res[0] == "ok" and uncached_now.get(key) and all(isinstance(x, str) for x in op[1]):
-                mine = [t for t in ticks if t[1] == op[2]]
-                if not mine:
+                if not ticks:       # (tick names are those at definition time: compare by count only)
                     return answers, ("uncached-not-executed", "step %d: %r returned without running its formula "
                                                               "(flags %r)" % (i, op, sorted(uncached_now.items())))
         elif k in EDIT_OPS:
